@@ -18,6 +18,10 @@ def run(tier, seed):
     for pe, we, sp in combos:
         ctx.replay(g, NDAdapter(POS[pe], WTS[we], spelling=sp), VIEW, label=f"{pe}/{we}/sp{sp}",
                    edge_budget=60000 if tier == "quick" else 300000)
+    # narrow integer contents: every cell fits int16 / int32, the sums along an axis do not (accumulate, projections)
+    for we in ("narrow16", "narrow32"):
+        ctx.replay(g, NDAdapter(POS["dyadic"], WTS[we], spelling=1), VIEW - {"err2"}, first_actions={"FromArrays"}, label=f"dyadic/{we}/sp1",
+                   edge_budget=30000 if tier == "quick" else 150000)
     ctx.assumptions = ["every cell of the array-built parents holds a distinct content (positional code), so a reduction over a wrong axis changes the result"]
     return ctx.finish("parents of shape (2,3), (1,2,3), (2,1,2,3) with distinct cell contents and parents built from rows; TLC enumerates "
                       "every projection onto every ordered selection of 1..3 axes (by index or by name), projections of projections, "
